@@ -11,6 +11,7 @@ import (
 	"sort"
 	"strings"
 
+	"golang.org/x/tools/go/ssa"
 	yaml "gopkg.in/yaml.v2"
 
 	"verif/internal/core"
@@ -244,6 +245,40 @@ func checkC20(rep *core.Report) {
 			r1.OK(keyStr, g.pos, g.name+":"+g.typeName)
 		}
 	}
+	// ---- R20.5: the two tables are not modified behind the literals' back ----
+	r5 := rep.Rule("R20.5", "type-name table and built-in table are written only by their initialisers (and the built-in table by the loader)", 1)
+	ftG, imG := rep.Prog.SSAPackage("ipfix").Var("FieldTypes"), rep.Prog.SSAPackage("ipfix").Var("InfoModel")
+	nW := 0
+	for _, fn := range rep.Prog.RepoFuncs() {
+		allInstrs(fn, func(ins ssa.Instruction) {
+			var tgt *ssa.Global
+			what := ""
+			switch x := ins.(type) {
+			case *ssa.MapUpdate:
+				tgt, what = globalOf(x.Map), "element store"
+			case *ssa.Store:
+				if g, ok := x.Addr.(*ssa.Global); ok {
+					tgt, what = g, "assignment"
+				}
+			case *ssa.Call:
+				if b, ok := x.Common().Value.(*ssa.Builtin); ok && (b.Name() == "delete" || b.Name() == "clear") {
+					tgt, what = globalOf(x.Common().Args[0]), b.Name()
+				}
+			}
+			if tgt == nil || (tgt != ftG && tgt != imG) {
+				return
+			}
+			nW++
+			isInit := fn.Name() == "init" && fn.Synthetic != ""
+			isLoader := tgt == imG && fn.Name() == "LoadExtElements"
+			key := core.FuncName(fn) + ":" + tgt.Name() + ":" + what
+			if fn.Name() == "init" && fn.Synthetic != "" {
+				key = "ipfix.init:" + tgt.Name() + ":" + what
+			}
+			r5.Check(isInit || isLoader, key, ins.Pos(), "initialiser/loader", "table "+tgt.Name()+" is modified at run time outside its initialiser: the literal no longer describes what decoding uses (e.g. entries added in an init() run after the built-in table was evaluated)")
+		})
+	}
+	rep.Extra["table_writers"] = nW
 	rep.Extra["builtin_entries"] = len(goTbl)
 	rep.Extra["file_entries"] = len(yTbl)
 	rep.Extra["exhaustive"] = true
